@@ -135,43 +135,44 @@ def regex_rule(prog, rep, rule="REGEX-1"):
                    "of exponential_regex()" % (RE_FUNCS,))
     fd = Folder(prog)
     n = 0
-    scanned = set()
-    for f in prog.all_functions():
-        if f.module.name.startswith("odml.rdf") or f.module.name.startswith("odml.scripts"):
+    for mod in sorted(prog.modules.values(), key=lambda m0: m0.name):
+        if mod.name.startswith("odml.rdf") or mod.name.startswith("odml.scripts"):
             continue
-        calls = [c for c in calls_in(f.node) if canonical_name(prog, f, c.func) in RE_FUNCS and c.args]
+        calls = [c for c in ast.walk(mod.tree) if isinstance(c, ast.Call) and c.args and canonical_name(prog, mod, c.func) in RE_FUNCS]
         if not calls:
             continue
         pats = []
         computed = False
         for c in calls:
             try:
-                v = fd.try_fold(c.args[0], f.module, default=None)
+                v = fd.try_fold(c.args[0], mod, default=None)
             except Exception:
                 v = None
             if isinstance(v, str):
                 pats.append((v, c))
             else:
                 computed = True
-        if computed and f.module.name not in scanned:
-            # the pattern comes out of a table or a parameter: every string literal of the module that is written like a regular
-            # expression (doc strings excluded) is a candidate
-            scanned.add(f.module.name)
+        if computed:
+            # the pattern comes out of a table, a loop variable or a parameter: every string literal of the module that is written
+            # like a regular expression (doc strings excluded) is a candidate
             docs = set()
-            for y in ast.walk(f.module.tree):
+            for y in ast.walk(mod.tree):
                 if isinstance(y, (ast.FunctionDef, ast.ClassDef, ast.Module)) and y.body and isinstance(y.body[0], ast.Expr) \
                         and isinstance(y.body[0].value, ast.Constant):
                     docs.add(id(y.body[0].value))
-            for y in ast.walk(f.module.tree):
+            have = set(p0 for p0, _ in pats)
+            for y in ast.walk(mod.tree):
                 if isinstance(y, ast.Constant) and isinstance(y.value, str) and id(y) not in docs and len(y.value) < 400 \
-                        and any(ch in y.value for ch in "+*{") and any(ch in y.value for ch in "\\^$[("):
+                        and any(ch in y.value for ch in "+*{") and any(ch in y.value for ch in "\\^$[(") and y.value not in have:
                     pats.append((y.value, y))
+                    have.add(y.value)
         for pat, at in pats:
             n += 1
             why = exponential_regex(pat)
-            rep.check(why is None, rule, "%s: pattern %r" % (f.short, pat[:40]), "no nested unbounded repeat",
+            rep.check(why is None, rule, "%s: pattern %r" % (mod.name[5:] if mod.name.startswith("odml.") else mod.name, pat[:40]),
+                      "no nested unbounded repeat",
                       "the pattern %r is applied to document text and %s: a long non matching value keeps the reader busy for hours"
-                      % (pat[:60], why), where(f, at), witness="a text value of 40 digits followed by a letter")
+                      % (pat[:60], why), "%s:%d" % (mod.path, getattr(at, "lineno", 0)), witness="a text value of 40 digits followed by a letter")
     rep.floor(rule, n, 4, "regular expressions applied to document text")
     # the rule recognises its target shape (a vacuous lint passes forever)
     if exponential_regex(r"^(-+)?(\d+,?)+\.\d+$") is None or exponential_regex(r"^(a+)+$") is None or exponential_regex(r"^(-+)?\d+\.\d+$") is not None:
